@@ -14,6 +14,7 @@ package proxy
 // whole-package instrumentation of proxy + netmc.
 
 import (
+	"encoding/binary"
 	"encoding/json"
 	"fmt"
 	"reflect"
@@ -30,6 +31,7 @@ import (
 	"go.minekube.com/gate/pkg/edition/java/proto/packet"
 	"go.minekube.com/gate/pkg/edition/java/proto/state"
 	"go.minekube.com/gate/pkg/edition/java/proto/version"
+	"go.minekube.com/gate/pkg/edition/java/proxy/phase"
 	"go.minekube.com/gate/pkg/edition/java/proxy/zzverif/bfs"
 	"go.minekube.com/gate/pkg/edition/java/proxy/zzverif/sched"
 	"go.minekube.com/gate/pkg/edition/java/proxy/zzverif/schedrun"
@@ -51,13 +53,25 @@ type kaBackend struct {
 	writes []kaWrite // keep-alives written to this backend, with the conn state at write time
 	other  int       // anything else written
 	sends  map[int64]int
+	via    map[string]int // which real backend handler received the keep-alives
 }
 
 type kaWorld struct {
+	rig    string // "play": client in PLAY, A current, B in flight; "config": client in CONFIG (1.20.2+ switch), same roles; "join": client in CONFIG, NO current server, B in flight (initial join)
 	player *connectedPlayer
 	client *vconn
 	h      *clientPlaySessionHandler
-	b      [2]*kaBackend // 0 = A (current at start), 1 = B (in flight at start)
+	hc     *clientConfigSessionHandler
+	b      [2]*kaBackend // 0 = A (current at start, detached in rig "join"), 1 = B (in flight at start)
+}
+
+// kaPayload is the raw frame body of a keep-alive (packet id + big-endian long): a reply that the code
+// under test forwards as raw bytes (forwardToServer) is observed and counted like a packet write.
+func kaPayload(id int64) []byte {
+	b := make([]byte, 9)
+	b[0] = 0x15
+	binary.BigEndian.PutUint64(b[1:], uint64(id))
+	return b
 }
 
 func stName(s *state.Registry) string {
@@ -74,18 +88,31 @@ func stName(s *state.Registry) string {
 	return "?"
 }
 
-func newKAWorld() *kaWorld {
+func newKAWorld() *kaWorld { return newKAWorldRig("play") }
+
+func newKAWorldRig(rig string) *kaWorld {
 	protocol := version.Minecraft_1_20_3.Protocol
-	w := &kaWorld{client: newVConn("client", protocol, state.Play)}
+	w := &kaWorld{rig: rig, client: newVConn("client", protocol, state.Play)}
+	if rig != "play" {
+		w.client.st = state.Config
+	}
 	w.player, _ = newVPlayer(w.client, &config.Config{}, &detEvent{}, nil)
 	mk := func(name string, st *state.Registry) *kaBackend {
-		kb := &kaBackend{name: name, conn: newVConn(name, protocol, st), sends: map[int64]int{}}
+		kb := &kaBackend{name: name, conn: newVConn(name, protocol, st), sends: map[int64]int{}, via: map[string]int{}}
 		kb.sc = &serverConnection{
 			player:       w.player,
 			log:          logr.Discard(),
 			pendingPings: lru.NewSync[int64, time.Time](lru.WithCapacity(pendingKeepAliveCapacity)),
+			connPhase:    phase.VanillaBackendPhase, // "considered complete": the generic forwardToServer path is open
 		}
 		kb.sc.connection = kb.conn
+		kb.conn.onPayload = func(b []byte) {
+			if len(b) == 9 && b[0] == 0x15 {
+				kb.writes = append(kb.writes, kaWrite{int64(binary.BigEndian.Uint64(b[1:])), stName(kb.conn.st)})
+			} else {
+				kb.other++
+			}
+		}
 		kb.conn.onWrite = func(p proto.Packet) {
 			if ka, ok := p.(*packet.KeepAlive); ok {
 				kb.writes = append(kb.writes, kaWrite{ka.RandomID, stName(kb.conn.st)})
@@ -97,20 +124,56 @@ func newKAWorld() *kaWorld {
 	}
 	w.b[0] = mk("A", state.Play)
 	w.b[1] = mk("B", state.Config)
-	w.player.connectedServer_ = w.b[0].sc
+	if rig != "join" {
+		w.player.connectedServer_ = w.b[0].sc
+	}
 	w.player.connInFlight = w.b[1].sc
 	w.h = newClientPlaySessionHandler(w.player)
+	w.hc = newClientConfigSessionHandler(w.player)
 	return w
 }
 
+// send: backend i sends a keep-alive. It is delivered to the REAL backend session handler that serves a
+// connection in that role and state (play handler: current connection in PLAY; transition handler: in-flight
+// connection in PLAY, i.e. before JoinGame; config handler: CONFIG). A connection in LOGIN has no handler that
+// accepts keep-alives; the pending entry is planted directly (keeps the wrong-state check non-vacuous).
 func (w *kaWorld) send(i int, id int64) {
+	kb := w.b[i]
+	kb.sends[id]++
+	ka := &packet.KeepAlive{RandomID: id}
+	pc := &proto.PacketContext{Direction: proto.ClientBound, Protocol: w.client.protocol, Packet: ka, Payload: kaPayload(id)}
+	switch {
+	case kb.conn.st == state.Config:
+		kb.via["config"]++
+		(&backendConfigSessionHandler{serverConn: kb.sc, log: logr.Discard()}).HandlePacket(pc)
+	case kb.conn.st == state.Play && w.player.connectedServer_ == kb.sc: // harness-side read; one thread runs at a time
+		kb.via["play"]++
+		(&backendPlaySessionHandler{serverConn: kb.sc, log: logr.Discard(), playerSessionHandler: w.h}).HandlePacket(pc)
+	case kb.conn.st == state.Play:
+		kb.via["transition"]++
+		(&backendTransitionSessionHandler{serverConn: kb.sc, log: logr.Discard()}).HandlePacket(pc)
+	default:
+		kb.via["direct"]++
+		recordBackendKeepAlive(kb.sc, ka)
+	}
+}
+
+// sendDirect plants the pending entry the way every backend handler does, without the handler around it
+// (fewer scheduling points: used where a scenario explores ALL interleavings).
+func (w *kaWorld) sendDirect(i int, id int64) {
 	w.b[i].sends[id]++
+	w.b[i].via["direct"]++
 	recordBackendKeepAlive(w.b[i].sc, &packet.KeepAlive{RandomID: id})
 }
 
 func (w *kaWorld) reply(id int64) {
-	w.h.HandlePacket(&proto.PacketContext{Direction: proto.ServerBound, Protocol: w.client.protocol,
-		Packet: &packet.KeepAlive{RandomID: id}, Payload: []byte{0}})
+	pc := &proto.PacketContext{Direction: proto.ServerBound, Protocol: w.client.protocol,
+		Packet: &packet.KeepAlive{RandomID: id}, Payload: kaPayload(id)}
+	if w.rig == "play" {
+		w.h.HandlePacket(pc)
+	} else {
+		w.hc.HandlePacket(pc)
+	}
 }
 
 func (w *kaWorld) promote() {
@@ -171,8 +234,24 @@ func kaOps(thorough bool) []kaOp {
 
 var stByName = map[string]*state.Registry{"login": state.Login, "config": state.Config, "play": state.Play}
 
-func runKAHistory(h []kaOp) bfs.Outcome {
-	w := newKAWorld()
+// kaVia counts, per process, which real backend handler received the harness's keep-alives (evidence only).
+var kaVia = map[string]int{}
+
+func runKAHistory(h []kaOp) bfs.Outcome { return runKAHistoryRig("play")(h) }
+
+func runKAHistoryRig(rig string) func(h []kaOp) bfs.Outcome {
+	return func(h []kaOp) bfs.Outcome { return runKAHistory0(rig, h) }
+}
+
+func runKAHistory0(rig string, h []kaOp) bfs.Outcome {
+	w := newKAWorldRig(rig)
+	defer func() {
+		for _, kb := range w.b {
+			for k, n := range kb.via {
+				kaVia[k] += n
+			}
+		}
+	}()
 	var out bfs.Outcome
 	fail := func(key, f string, a ...any) {
 		if out.FailKey == "" {
@@ -228,7 +307,9 @@ func runKAHistory(h []kaOp) bfs.Outcome {
 		default:
 			panic("op " + s)
 		}
-		if s != "floodA" && !strings.HasPrefix(s, "reply") && !strings.HasPrefix(s, "send") && w.totalWrites() != before {
+		if !strings.HasPrefix(s, "reply") && w.totalWrites() != before {
+			// includes the backends' own keep-alives going through the real backend handlers: only a client
+			// reply may make a backend receive one
 			fail("spontaneous-write", "op %s (step %d) made a backend receive a keep-alive", s, step)
 		}
 		w.check(fail)
@@ -333,6 +414,13 @@ func kaScenarios() []schedrun.Scenario {
 			w := newKAWorld()
 			w.send(0, 7)
 			x.Go("r1", func() { w.reply(7); w.reply(7) })
+			x.Go("backend", func() { w.sendDirect(0, 7) })
+			endCheck(x, w)
+		}},
+		{Name: "reply-vs-resend-through-play-handler", Quick: 2, Thorough: 3, Body: func(x *sched.X) {
+			w := newKAWorld()
+			w.send(0, 7)
+			x.Go("r1", func() { w.reply(7); w.reply(7) })
 			x.Go("backend", func() { w.send(0, 7) })
 			endCheck(x, w)
 		}},
@@ -342,6 +430,16 @@ func kaScenarios() []schedrun.Scenario {
 			w.send(1, 8)
 			x.Go("r7", func() { w.reply(7); w.reply(7) })
 			x.Go("r8", func() { w.reply(8) })
+			x.Go("switch", func() { w.promote() })
+			endCheck(x, w)
+		}},
+		{Name: "join-replies-vs-promotion", Quick: 2, Thorough: 3, Body: func(x *sched.X) {
+			// initial join of a 1.20.2+ client: no current server, replies arrive through the CONFIG client
+			// handler while the in-flight connection is being promoted
+			w := newKAWorldRig("join")
+			w.send(1, 8)
+			x.Go("r1", func() { w.reply(8) })
+			x.Go("r2", func() { w.reply(8); w.reply(9) })
 			x.Go("switch", func() { w.promote() })
 			endCheck(x, w)
 		}},
@@ -360,6 +458,20 @@ func kaScenarios() []schedrun.Scenario {
 	}
 }
 
+func kaScenarioOf(rig string) string {
+	if rig == "play" {
+		return "bfs:keepalive"
+	}
+	return "bfs:keepalive-" + rig
+}
+
+func kaRigOf(scenario string) string {
+	if rig := strings.TrimPrefix(scenario, "bfs:keepalive-"); rig != scenario {
+		return rig
+	}
+	return "play"
+}
+
 func TestVerif(t *testing.T) {
 	vrt.Run(t, "C18", func(r *vrt.R) {
 		if raw := r.Replay(); raw != nil {
@@ -370,7 +482,7 @@ func TestVerif(t *testing.T) {
 			if strings.HasPrefix(probe.Scenario, "bfs:") {
 				var rd bfs.ReplayData[kaOp]
 				r.ReplayInto(&rd)
-				out := runKAHistory(rd.History)
+				out := runKAHistoryRig(kaRigOf(rd.Scenario))(rd.History)
 				r.Eval(1)
 				if out.FailKey != "" {
 					r.Violation(rd.Scenario+"/"+out.FailKey, fmt.Sprintf("history %v\n%s", rd.History, out.FailDesc), rd)
@@ -384,35 +496,64 @@ func TestVerif(t *testing.T) {
 		if r.Thorough() {
 			depth = 8
 		}
-		res := bfs.Explore(bfs.Config[kaOp]{
-			Name: "bfs:keepalive", Ops: kaOps(r.Thorough()), Depth: depth, Run: runKAHistory,
-			Enabled: func(h []kaOp, op kaOp) bool {
-				if op == "floodA" || op == "promote" || op == "closeA" || op == "closeB" {
-					for _, p := range h {
-						if p == op {
-							return false // once per history
-						}
+		outcomes := map[string]bool{}
+		for _, rig := range []string{"play", "config", "join"} {
+			ops := kaOps(r.Thorough())
+			if rig == "join" {
+				// no current server: backend A does not exist for the player
+				var o2 []kaOp
+				for _, op := range ops {
+					if s := string(op); !strings.Contains(s, "A") {
+						o2 = append(o2, op)
 					}
 				}
-				return true
-			},
-			Shard: r.Shard, NShards: r.NShards, Deadline: r.DeadlineTime(),
-		})
-		res.Merge(r, "bfs:keepalive")
-		for o, n := range res.Outcomes {
-			if strings.Contains(o, "<-") {
-				r.ClassN("forwarded-something", n)
-			} else {
-				r.ClassN("nothing-forwarded", n)
+				ops = o2
+				if !r.Thorough() {
+					ops = append(ops, "sendB2") // thorough already has it
+				}
 			}
-			if strings.Contains(o, "B<-") {
-				r.ClassN("forwarded-to-in-flight-backend", n)
+			name := kaScenarioOf(rig)
+			d := depth
+			if rig == "config" {
+				// same roles and backend-side code as rig "play"; only the client-side entry point differs,
+				// which shows within short histories
+				d = depth - 2
 			}
-			if strings.Contains(o, "@config") {
-				r.ClassN("forwarded-in-config-state", n)
+			res := bfs.Explore(bfs.Config[kaOp]{
+				Name: name, Ops: ops, Depth: d, Run: runKAHistoryRig(rig),
+				Enabled: func(h []kaOp, op kaOp) bool {
+					if op == "floodA" || op == "promote" || op == "closeA" || op == "closeB" {
+						for _, p := range h {
+							if p == op {
+								return false // once per history
+							}
+						}
+					}
+					return true
+				},
+				Shard: r.Shard, NShards: r.NShards, Deadline: r.DeadlineTime(),
+			})
+			res.Merge(r, name)
+			for o, n := range res.Outcomes {
+				outcomes[rig+" "+o] = true
+				if strings.Contains(o, "<-") {
+					r.ClassN("forwarded-something", n)
+					r.ClassN("forwarded-something:rig="+rig, n)
+				} else {
+					r.ClassN("nothing-forwarded", n)
+				}
+				if strings.Contains(o, "B<-") {
+					r.ClassN("forwarded-to-in-flight-backend", n)
+				}
+				if strings.Contains(o, "@config") {
+					r.ClassN("forwarded-in-config-state", n)
+				}
 			}
 		}
-		r.Extra("bfs_distinct_outcomes", len(res.Outcomes))
+		for k, n := range kaVia {
+			r.ClassN("backend-keep-alive-via:"+k, n)
+		}
+		r.Extra("bfs_distinct_outcomes", len(outcomes))
 		schedrun.Run(r, kaScenarios())
 	})
 }
